@@ -101,6 +101,10 @@ def jobs(tier):
     js += [j for j in c01.jobs(tier) if pick(j, ('h_next_range', 'h_boolean'))]
     js += [j for j in c09.jobs(tier) if pick(j, ('h_listarray_rpad', 'h_listoffset_rpad'))][:60 if tier == 'quick' else None]
     js += [j for j in c07.jobs(tier) if pick(j, ('h_list',))][:80 if tier == 'quick' else None]
+    js += [j for j in c07.jobs(tier) if pick(j, ('h_regular',))]           # scratch buffers sized by RegularArray::combinations
+    from . import c03, c06
+    js += [j for j in c03.jobs(tier) if pick(j, ('h_option',))]            # numnull sizes the buffers the projection kernels fill
+    js += [j for j in c06.jobs(tier) if pick(j, ('h_comparator',))]        # std::sort needs a strict weak ordering (else UB / hang)
     return js
 
 
